@@ -158,15 +158,16 @@ Proof.
     split; [reflexivity|]. split; [intros _; exact Hbuf|]. split; [intros ?; discriminate|].
     intros o v Hin. eapply Hev; [exact Hin|]. intros p Hp.
     destruct (ch_stream c); simpl in Hp; [destruct Hp as [<-|[]]; reflexivity|contradiction].
-  - destruct (ch_stream c && negb (ch_tx c) && negb (ch_legacy c) && match rst with [] => true | _ => false end) eqn:Eend; simpl.
-    + apply andb_true_iff in Eend as [Eend _]. apply andb_true_iff in Eend as [Eend _]. apply andb_true_iff in Eend as [Es Etx]. apply negb_true_iff in Etx.
+  - destruct (negb (ch_tx c) && negb (ch_legacy c) && match rst with [] => true | _ => false end) eqn:Eend; simpl.
+    + apply andb_true_iff in Eend as [Eend _]. apply andb_true_iff in Eend as [Etx _]. apply negb_true_iff in Etx.
       split.
       { split; [exists rst; split; [exact Hacc'|intros ?; discriminate]|split; [exact Htk'|]].
-        simpl. rewrite Es. intros ?; discriminate. }
+        simpl. intros Hs. destruct (Honce Hs) as [_ H2]. split; [intros ?; discriminate|exact H2]. }
       split; [simpl; congruence|]. split; [reflexivity|]. split; [reflexivity|]. split; [reflexivity|].
       split; [intros ?; discriminate|]. exists got.
       split; [reflexivity|]. split; [intros _; exact Hbuf|]. split; [intros ?; discriminate|].
-      intros o v Hin. eapply Hev; [exact Hin|]. intros p [<-|[]]; reflexivity.
+      intros o v Hin. eapply Hev; [exact Hin|]. intros p Hp.
+      destruct (ch_stream c); simpl in Hp; [destruct Hp as [<-|[]]; reflexivity|contradiction].
     + split.
       { split; [exists rst; split; [exact Hacc'|reflexivity]|split; [exact Htk'|exact Honce]]. }
       split; [reflexivity|]. split; [reflexivity|]. split; [reflexivity|]. split; [reflexivity|].
